@@ -1,6 +1,7 @@
 package main
 
 import (
+	"sort"
 	"bytes"
 	"crypto"
 	"crypto/rsa"
@@ -429,6 +430,67 @@ func runC10(c *Ctx) {
 				t2 := tokens.Token{TokenType: uint16(m[0])<<8 | uint16(m[1]), Nonce: m[2:34], Context: m[34:66], KeyID: m[66:98], Authenticator: m[98 : 98+nkk]}
 				verify("flip", ty, keyseed, t2, "fail")
 			}
+			// authenticators changed in several bytes at once (differences that cancel under a sum, an xor-fold, or a
+			// comparison that stops early or looks at part of the string), and proper prefixes/suffixes
+			{
+				au := tok.Authenticator
+				n := len(au)
+				multi := map[string][]byte{}
+				mk := func(name string, f func(b []byte)) {
+					b := append([]byte{}, au...)
+					f(b)
+					multi[name] = b
+				}
+				i, j := r.IntN(n), r.IntN(n-1)
+				if j >= i {
+					j++
+				}
+				mk("two-bytes-bit7", func(b []byte) { b[i] ^= 0x80; b[j] ^= 0x80 })
+				mk("two-bytes-same-xor", func(b []byte) { x := byte(1 + r.IntN(255)); b[i] ^= x; b[j] ^= x })
+				mk("four-bytes-bit6", func(b []byte) {
+					for k := 0; k < 4; k++ {
+						b[(i+k*7)%n] ^= 0x40
+					}
+				})
+				mk("all-bytes-xor-04", func(b []byte) {
+					for k := range b {
+						b[k] ^= 0x04
+					}
+				})
+				mk("all-bytes-xor-80", func(b []byte) {
+					for k := range b {
+						b[k] ^= 0x80
+					}
+				})
+				mk("complement", func(b []byte) {
+					for k := range b {
+						b[k] = ^b[k]
+					}
+				})
+				mk("swap-two-bytes", func(b []byte) { b[i], b[j] = b[j], b[i] })
+				mk("reversed", func(b []byte) {
+					for x, y := 0, n-1; x < y; x, y = x+1, y-1 {
+						b[x], b[y] = b[y], b[x]
+					}
+				})
+				mk("first-half-only-right", func(b []byte) { copy(b[n/2:], r.Bytes(n-n/2)) })
+				mk("second-half-only-right", func(b []byte) { copy(b[:n/2], r.Bytes(n/2)) })
+				mk("last-byte-wrong", func(b []byte) { b[n-1] ^= byte(1 + r.IntN(255)) })
+				mk("add-one-sub-one", func(b []byte) { b[i]++; b[j]-- })
+				var names []string
+				for k := range multi {
+					names = append(names, k)
+				}
+				sort.Strings(names)
+				for _, k := range names {
+					if bytes.Equal(multi[k], au) {
+						continue
+					}
+					t2 := tok
+					t2.Authenticator = multi[k]
+					verify("auth:"+k, ty, keyseed, t2, "fail")
+				}
+			}
 			// authenticator and field lengths
 			for _, l := range []int{0, len(tok.Authenticator) - 1, len(tok.Authenticator) + 1} {
 				t2 := tok
@@ -502,7 +564,7 @@ func runC02(c *Ctx) {
 		c02Direct(c, w, 1, kind, resp, out, mustReject, ti1)
 	}
 	fin1("honest", w.resp["resp1"], false)
-	flipAll(w.resp["resp1"], c.Pick(7, 1), func(k string, m []byte) { fin1(k, m, k != "extended") })
+	flipAll(w.resp["resp1"], c.Pick(1, 1), func(k string, m []byte) { fin1(k, m, k != "extended") })
 	fin1("foreign-key", w2.resp["resp1-otherkey"], true)
 	fin1("foreign-request", w2.resp["resp1-otherreq"], true)
 	// ---- type 2 ----
@@ -519,7 +581,7 @@ func runC02(c *Ctx) {
 		c02Direct(c, w, 2, kind, resp, out, mustReject, ti2)
 	}
 	fin2("honest", w.resp["resp2"], false)
-	flipAll(w.resp["resp2"], c.Pick(17, 1), func(k string, m []byte) { fin2(k, m, true) })
+	flipAll(w.resp["resp2"], c.Pick(3, 1), func(k string, m []byte) { fin2(k, m, true) })
 	fin2("foreign-key", w2.resp["resp2-otherkey"], true)
 	fin2("foreign-request", w2.resp["resp2-otherreq"], true)
 	// requests created with nonces / key ids of unusual length: the spliced token no longer parses at the
@@ -595,10 +657,10 @@ func runC02(c *Ctx) {
 		}
 	}
 	probe(3, "honest", w.resp["resp3"], false)
-	flipAll(w.resp["resp3"], c.Pick(13, 1), func(k string, m []byte) { probe(3, k, m, true) })
+	flipAll(w.resp["resp3"], c.Pick(3, 1), func(k string, m []byte) { probe(3, k, m, true) })
 	probe(3, "foreign-request", w2.resp["resp3-otherreq"], true)
 	probe(5, "honest", w.resp["resp5"], false)
-	flipAll(w.resp["resp5"], c.Pick(5, 1), func(k string, m []byte) { probe(5, k, m, k != "extended") })
+	flipAll(w.resp["resp5"], c.Pick(1, 1), func(k string, m []byte) { probe(5, k, m, k != "extended") })
 	probe(5, "foreign-key", w2.resp["resp5-otherkey"], true)
 	// batch permutations: elements dropped, duplicated, rotated, swapped (proof kept)
 	r5 := w.resp["resp5"]
@@ -690,6 +752,103 @@ func runC02(c *Ctx) {
 			c.Count("pinned-key:" + name)
 			c.Direct(out == "-", "finalization is not bound to the key the request was created for: "+out, map[string]any{"type": name, "keyId": hx(kid), "panic": firstLines(lastPanic, 6)})
 		}
+	}
+	c02Scribbled(c, r)
+}
+
+// c02Scribbled: the caller overwrites every argument buffer right after creating the request (a client that reads the
+// next request's nonce into the same scratch buffers): the token finalized later is still the one of the request.
+func c02Scribbled(c *Ctx, r *Rng) {
+	i1 := type1.NewBasicPrivateIssuer(oprfKey(oprf.SuiteP384, []byte("c02-scr-1")))
+	i5 := type5.NewBatchedPrivateIssuer(oprfKey(oprf.SuiteRistretto255, []byte("c02-scr-5")))
+	i2 := type2.NewBasicPublicIssuer(rsaKey(2))
+	env := getC07Env(c.Seed, 7, []string{"origin.example"})
+	cl3 := newT3Client(r)
+	scr := func(bs ...[]byte) {
+		for _, b := range bs {
+			for i := range b {
+				b[i] ^= 0x5a
+			}
+		}
+	}
+	for _, ty := range []int{1, 2, 3, 5} {
+		out := c.Op(fmt.Sprintf("c03.probe c02.scribbled-args type%d", ty), func() string {
+			ch, nonce, nonce2 := r.Bytes(20), r.Bytes(32), r.Bytes(32)
+			ch0, n0, n20 := append([]byte{}, ch...), append([]byte{}, nonce...), append([]byte{}, nonce2...)
+			check := func(t tokens.Token, wantNonce []byte, kid []byte, verify func(tokens.Token) bool) string {
+				cd := sha256.Sum256(ch0)
+				if !bytes.Equal(t.Nonce, wantNonce) || !bytes.Equal(t.Context, cd[:]) || !bytes.Equal(t.KeyID, kid) {
+					return "the token does not carry the request's nonce, challenge digest and key id"
+				}
+				if !verify(t) {
+					return "the token does not verify"
+				}
+				return "-"
+			}
+			switch ty {
+			case 1:
+				kid := i1.TokenKeyID()
+				kid0 := append([]byte{}, kid...)
+				st, err := type1.NewBasicPrivateClient().CreateTokenRequest(ch, nonce, kid, i1.TokenKey())
+				must(err)
+				scr(ch, nonce, kid)
+				resp, err := i1.Evaluate(st.Request())
+				must(err)
+				t, err := st.FinalizeToken(resp)
+				if err != nil {
+					return "honest response rejected"
+				}
+				return check(t, n0, kid0, func(t tokens.Token) bool { return i1.Verify(t) == nil })
+			case 2:
+				kid := i2.TokenKeyID()
+				kid0 := append([]byte{}, kid...)
+				st, err := type2.NewBasicPublicClient().CreateTokenRequest(ch, nonce, kid, i2.TokenKey())
+				must(err)
+				scr(ch, nonce, kid)
+				resp, err := i2.Evaluate(st.Request())
+				must(err)
+				t, err := st.FinalizeToken(resp)
+				if err != nil {
+					return "honest response rejected"
+				}
+				return check(t, n0, kid0, func(t tokens.Token) bool { return pssValid(i2.TokenKey(), t.AuthenticatorInput(), t.Authenticator) })
+			case 3:
+				kid := env.issuer.TokenKeyID()
+				kid0 := append([]byte{}, kid...)
+				blind := append([]byte{}, cl3.blind...)
+				st, err := type3.NewRateLimitedClientFromSecret(cl3.secret).CreateTokenRequest(ch, nonce, blind, kid, env.issuer.TokenKey(), "origin.example", env.issuer.NameKey())
+				must(err)
+				enc := append([]byte{}, st.Request().Marshal()...)
+				scr(ch, nonce, kid, blind)
+				resp, _, err := env.issuer.Evaluate(enc)
+				must(err)
+				t, err := st.FinalizeToken(resp)
+				if err != nil {
+					return "honest response rejected"
+				}
+				return check(t, n0, kid0, func(t tokens.Token) bool { return pssValid(env.issuer.TokenKey(), t.AuthenticatorInput(), t.Authenticator) })
+			default:
+				kid := i5.TokenKeyID()
+				kid0 := append([]byte{}, kid...)
+				nonces := [][]byte{nonce, nonce2}
+				st, err := type5.NewBatchedPrivateClient().CreateTokenRequest(ch, nonces, kid, i5.TokenKey())
+				must(err)
+				scr(ch, nonce, nonce2, kid)
+				nonces[0], nonces[1] = nil, nil
+				resp, err := i5.Evaluate(st.Request())
+				must(err)
+				ts, err := st.FinalizeTokens(resp)
+				if err != nil || len(ts) != 2 {
+					return "honest response rejected"
+				}
+				if v := check(ts[0], n0, kid0, func(t tokens.Token) bool { return i5.Verify(t) == nil }); v != "-" {
+					return v
+				}
+				return check(ts[1], n20, kid0, func(t tokens.Token) bool { return i5.Verify(t) == nil })
+			}
+		})
+		c.Count(fmt.Sprintf("scribbled-args:type%d", ty))
+		c.Direct(out == "-", "after the caller reused its argument buffers: "+out, map[string]any{"type": ty, "panic": firstLines(lastPanic, 6)})
 	}
 }
 
